@@ -8,7 +8,7 @@ package main
 //   cfg     (roots sel opts ties)        -- everything needed to re-run the implementation
 //     roots (cid ...)                     (api 0..2: exactly one)
 //     sel   (kind depth (path ...))       selector description (selSpec)
-//     opts  (dpad ipad codec dups budget chooser nilroots plain)
+//     opts  (dpad ipad codec dups budget chooser nilroots plain ncbw ncbd)
 //     ties  1 when two distinct CIDs of the store share a digest (index byte order unspecified)
 //   store   ((cid data) ...)             the blocks the link system / block store holds
 //   traces  (((cid data nread touched) ...) ok) ...   the ORACLE: what the traversal library
@@ -116,16 +116,20 @@ type travOpts struct {
 	chooser    bool   // v2: WithTraversalPrototypeChooser(dagpb-aware)
 	nilRoots   bool   // api 4: pass a nil root slice when there are no roots
 	plain      bool   // api 4: WriteCar (DefaultWalkFunc) instead of WriteCarWithWalker
+	ncbW, ncbD uint64 // api 3: number of OnNewCarBlock callbacks given to Write / to Prepare (used by Dump)
 }
 
 func (o travOpts) val() Val {
-	return VL{VN(o.dpad), VN(o.ipad), VN(o.codec), vbool(o.dups), VN(o.budget), vbool(o.chooser), vbool(o.nilRoots), vbool(o.plain)}
+	return VL{VN(o.dpad), VN(o.ipad), VN(o.codec), vbool(o.dups), VN(o.budget), vbool(o.chooser), vbool(o.nilRoots), vbool(o.plain), VN(o.ncbW), VN(o.ncbD)}
 }
 func travOptsFromVal(v Val) travOpts {
 	l := v.(VL)
-	o := travOpts{uint64(l[0].(VN)), uint64(l[1].(VN)), uint64(l[2].(VN)), l[3].(VN) != 0, uint64(l[4].(VN)), l[5].(VN) != 0, l[6].(VN) != 0, false}
+	o := travOpts{uint64(l[0].(VN)), uint64(l[1].(VN)), uint64(l[2].(VN)), l[3].(VN) != 0, uint64(l[4].(VN)), l[5].(VN) != 0, l[6].(VN) != 0, false, 0, 0}
 	if len(l) > 7 {
 		o.plain = l[7].(VN) != 0
+	}
+	if len(l) > 9 {
+		o.ncbW, o.ncbD = uint64(l[8].(VN)), uint64(l[9].(VN))
 	}
 	return o
 }
@@ -358,6 +362,7 @@ func (g *loggingGetter) GetMany(ctx context.Context, cs []cid.Cid) <-chan *forma
 	close(ch)
 	return ch
 }
+
 // walk is the WalkFunc handed to WriteCarWithWalker: the node's links, logged for the node just fetched
 func (g *loggingGetter) walk(nd format.Node) ([]*format.Link, error) {
 	ls := nd.Links()
@@ -465,12 +470,26 @@ func idxObs(idx []byte, store []Blk, ties bool) Val {
 	return VL{VN(uint64(len(idx))), exact, lookups}
 }
 
-func cbsVal(cbs []carv1.Block) Val {
-	out := VL{}
-	for _, b := range cbs {
-		out = append(out, VL{VB(b.BlockCID.Bytes()), VB(b.Data), VN(b.Offset), VN(b.Size)})
+// cbLog is the event log shared by the k registered OnNewCarBlock callbacks of one run:
+// (callback index, Block) in call order.
+type cbLog struct{ evs VL }
+
+func (l *cbLog) callbacks(k uint64) []carv1.OnNewCarBlockFunc {
+	var out []carv1.OnNewCarBlockFunc
+	for i := uint64(0); i < k; i++ {
+		i := i
+		out = append(out, func(b carv1.Block) error {
+			l.evs = append(l.evs, VL{VN(i), VB(b.BlockCID.Bytes()), VB(append([]byte(nil), b.Data...)), VN(b.Offset), VN(b.Size)})
+			return nil
+		})
 	}
 	return out
+}
+func (l *cbLog) val() Val {
+	if l.evs == nil {
+		return VL{}
+	}
+	return l.evs
 }
 
 // ---- running the implementation -----------------------------------------------------------------
@@ -521,13 +540,13 @@ func runTrav(c *Ctx, tc *travCase) (traces Val, obs Val) {
 		}
 		sc := carv1.NewSelectiveCar(ctx, st, dags, tc.opts.root()...)
 		var wbuf bytes.Buffer
-		var wcbs []carv1.Block
-		werr := sc.Write(&wbuf, func(b carv1.Block) error { wcbs = append(wcbs, b); return nil })
+		wlog := &cbLog{}
+		werr := sc.Write(&wbuf, wlog.callbacks(tc.opts.ncbW)...)
 		tW := cur.val(werr == nil)
-		wobs := VL{VB(wbuf.Bytes()), travErr(werr), cbsVal(wcbs)}
+		wobs := VL{VB(wbuf.Bytes()), travErr(werr), wlog.val()}
 		cur = &walkLog{}
-		var dcbs []carv1.Block
-		prep, perr := sc.Prepare(func(b carv1.Block) error { dcbs = append(dcbs, b); return nil })
+		dlog := &cbLog{}
+		prep, perr := sc.Prepare(dlog.callbacks(tc.opts.ncbD)...)
 		tP := cur.val(perr == nil)
 		if perr != nil {
 			return VL{tW, tP}, VL{wobs, VL{travErr(perr), VN(0), VL{}, VL{}}, VL{VT("skipped")}}
@@ -536,7 +555,7 @@ func runTrav(c *Ctx, tc *travCase) (traces Val, obs Val) {
 		cur = &walkLog{}
 		var dbuf bytes.Buffer
 		derr := prep.Dump(ctx, &dbuf)
-		dobs := VL{VB(dbuf.Bytes()), travErr(derr), cbsVal(dcbs)}
+		dobs := VL{VB(dbuf.Bytes()), travErr(derr), dlog.val()}
 		return VL{tW, tP}, VL{wobs, pobs, dobs}
 	default:
 		g := &loggingGetter{store: store}
